@@ -652,14 +652,22 @@ where
             let cx = &mut *self.cx;
             let keep = |raw: u8| (mask >> (raw % 15)) & 1 == 1;
             let m = &mut slot.c.m;
+            let mut seen_refs: Vec<usize> = Vec::with_capacity(N + 2);
             let r = Self::lib(cx, || {
                 m.retain(|kk| {
                     tl::tick(Cb::Pred);
+                    if seen_refs.len() < seen_refs.capacity() {
+                        seen_refs.push(addr(kk));
+                    }
                     keep(KD::kraw(kk))
                 })
             });
             cx.log(|| format!("retain[{w}](mask {mask:#x}) -> {r:?}"));
             cx.bump(S::retains);
+            for ka in &seen_refs {
+                cx.bump(S::addr_checks);
+                cx.chk(P_ADDR, slot.c.contains(*ka, std::mem::size_of::<KD::K>()), "addr", || "retain handed its predicate a reference that points outside the container value".into());
+            }
             match r {
                 Ok(()) => {
                     let keys: Vec<u8> = slot.model.keys().copied().collect();
@@ -753,9 +761,16 @@ where
                 }
             }
             if ended {
-                for _ in 0..3 {
-                    let none = mmv_base::probe::ended_none(&mut d);
-                    cx.chk(P10, none, "not-fused", || "drain yielded an item after returning None".into());
+                if ended {
+                    for _ in 0..3 {
+                        let none = mmv_base::probe::ended_none(&mut d);
+                        cx.chk(P10, none, "not-fused", || "drain yielded an item after returning None".into());
+                    }
+                    {
+                        // after the end the exact-size report is 0 (len(), size_hint()), not an underflowed cursor
+                        let h = mmv_base::probe::hint_of(&d);
+                        cx.chk(P10, h == (0, (0, Some(0))), "exact-len", || format!("after the end: len()={} size_hint={:?}", h.0, h.1));
+                    }
                 }
             }
             if end == 2 {
@@ -779,6 +794,11 @@ where
                 }
             } else if let Err(p) = Self::lib(cx, move || drop(d)) {
                 fault |= unexpected(cx, liar, P10, &p);
+                if p == Pk::Injected && !liar {
+                    let post = Self::observe(&slot.c).unwrap_or_default();
+                    let l = slot.c.m.len();
+                    cx.chk(P10, post.is_empty() && l == 0, "drain-drop-panic", || format!("the drain was dropped (an element destructor panicked on the way), yet the set holds {} elements (len() = {l})", post.len()));
+                }
             }
             cx.log(|| format!("drain[{w}] take {take} end {end} of {n}: yielded {:?}", ys.iter().map(|y| y.0).collect::<Vec<_>>()));
             if !liar {
@@ -880,6 +900,11 @@ where
                 let none = mmv_base::probe::ended_none(&mut it);
                 cx.chk(P09, none, "not-fused", || format!("{name} yielded an item after returning None"));
             }
+            {
+                // after the end the exact-size report is 0 (len(), size_hint()), not an underflowed cursor
+                let h = mmv_base::probe::hint_of(&it);
+                cx.chk(P09, h == (0, (0, Some(0))), "exact-len", || format!("after the end: len()={} size_hint={:?}", h.0, h.1));
+            }
             let total = ys.len();
             cx.log(|| format!("walk[{w}] {name} cut {cut}: {:?}", ys.iter().map(|y| y.raw).collect::<Vec<_>>()));
             if !liar && !fault {
@@ -965,9 +990,16 @@ where
                 }
             }
             if ended {
-                for _ in 0..3 {
-                    let none = mmv_base::probe::ended_none(&mut it);
-                    cx.chk(P10, none, "not-fused", || "Set::into_iter yielded an item after returning None".into());
+                if ended {
+                    for _ in 0..3 {
+                        let none = mmv_base::probe::ended_none(&mut it);
+                        cx.chk(P10, none, "not-fused", || "Set::into_iter yielded an item after returning None".into());
+                    }
+                    {
+                        // after the end the exact-size report is 0 (len(), size_hint()), not an underflowed cursor
+                        let h = mmv_base::probe::hint_of(&it);
+                        cx.chk(P10, h == (0, (0, Some(0))), "exact-len", || format!("after the end: len()={} size_hint={:?}", h.0, h.1));
+                    }
                 }
             }
             if end == 2 {
@@ -1214,8 +1246,9 @@ where
                         if KD::COUNTS_CLONES && !liar {
                             let d = KD::clone_calls() - calls0;
                             cx.chk(P15, d == n as u64, "clone-count", || format!("clone() of {n} elements made {d} Clone::clone calls"));
+                            // (a set stores (T, ()): one counted clone per element)
                             let gens1: Vec<(u8, u32)> = tl::quiet(|| slot.c.m.iter().map(|k| (KD::kraw(k), KD::kgen(k))).collect()).unwrap_or_default();
-                            for (raw, g) in &gens0 {
+                            for (raw, g) in gens0.iter().filter(|_| KD::STAMPS_GEN) {
                                 let got = gens1.iter().find(|x| x.0 == *raw).map(|x| x.1);
                                 cx.chk(P15, got == Some(g + 1), "clone-origin", || format!("element {raw} of the clone is not a Clone::clone of the original element (generation {got:?}, original {g})"));
                             }
